@@ -76,10 +76,10 @@ theorem newSide_ctx (l : List α) : newSide (tagged .ctx l) = l := by
 def Anchor (x y : List α) (p : Nat × Nat) : Prop :=
   ∃ a, x[p.1]? = some a ∧ y[p.2]? = some a ∧ (∀ i, x[i]? = some a → i = p.1) ∧ (∀ j, y[j]? = some a → j = p.2)
 
-/-- The (rest of the) match sequence: in range, anchors or the end sentinel, non-decreasing on
+/-- The (rest of the) match sequence: in range, anchors or a sentinel, non-decreasing on
 the `y` side, and the end sentinel is still to come. -/
 structure MsOK (x y : List α) (ms : List (Nat × Nat)) : Prop where
-  elems : ∀ m ∈ ms, m.1 ≤ x.length ∧ m.2 ≤ y.length ∧ (m = (x.length, y.length) ∨ Anchor x y m)
+  elems : ∀ m ∈ ms, m.1 ≤ x.length ∧ m.2 ≤ y.length ∧ (m = (x.length, y.length) ∨ m = (0, 0) ∨ Anchor x y m)
   mono : ms.Pairwise (fun a b => a.2 ≤ b.2)
   last : (x.length, y.length) ∈ ms
 
@@ -104,11 +104,16 @@ theorem Inv.init (x y : List α) (ms : List (Nat × Nat)) : Inv x y ms {} where
 
 /-- The diagonal argument: a later match at or beyond `done.x` is at or beyond `done.y`. -/
 theorem Inv.done_y_le {x y : List α} {ms : List (Nat × Nat)} {st : St α} (inv : Inv x y ms st)
-    {m : Nat × Nat} (hm : m ∈ ms) (hmy : m.2 ≤ y.length) (ha : m = (x.length, y.length) ∨ Anchor x y m)
+    {m : Nat × Nat} (hm : m ∈ ms) (hmy : m.2 ≤ y.length)
+    (ha : m = (x.length, y.length) ∨ m = (0, 0) ∨ Anchor x y m)
     (hx : st.done.1 ≤ m.1) : st.done.2 ≤ m.2 := by
   obtain ⟨m₀, t, hdone, hd, hle⟩ := inv.diag
-  rcases ha with rfl | ⟨a, hxa, hya, ux, _⟩
+  rcases ha with rfl | rfl | ⟨a, hxa, hya, ux, _⟩
   · exact inv.dy
+  · have h0 := hle _ hm
+    rw [hdone] at hx ⊢
+    simp only at hx h0 ⊢
+    omega
   · by_cases h : st.done.2 ≤ m.2
     · exact h
     · exfalso
@@ -231,5 +236,122 @@ theorem openChunk_spec {x y : List α} {ms : List (Nat × Nat)} {st2 : St α} {s
     exact this
   · simp only [hcount, seg_length hbx, Prod.mk.injEq]
     omega
+
+theorem step_ok {x y : List α} {m : Nat × Nat} {ms : List (Nat × Nat)} {st : St α}
+    (hms : MsOK x y (m :: ms)) (inv : Inv x y (m :: ms) st) (hns : st.done.1 ≤ m.1) :
+    ∃ st' b, step x y st m = some (st', b) ∧
+      (b = true → Script 0 0 x y st'.out) ∧
+      (b = false → Inv x y ms st' ∧ m ≠ (x.length, y.length)) := by
+  obtain ⟨hmx, hmy, hm⟩ := hms.elems m (by simp)
+  have hmono : ∀ m' ∈ ms, m.2 ≤ m'.2 := (List.pairwise_cons.mp hms.mono).1
+  have hdy := inv.done_y_le (List.mem_cons_self ..) hmy hm hns
+  obtain ⟨sx, sy, w, e, hst, hen, hd, hsx, hsy, hbx, hby, hme, hde⟩ :=
+    expand_spec x y st.done.1 st.done.2 m hmx hmy hns hdy
+  obtain ⟨px, py, hchunk, hpx, hpy, hscript, hold, hnew, hcount⟩ := inv.chunk
+  obtain ⟨⟨d1, d2⟩, ⟨c1, c2⟩, ⟨n1, n2⟩, ctext, out⟩ := st
+  simp only at *
+  have hdiag' : ∃ (m₀ : Nat × Nat) (t : Nat), (sx + w, sy + w) = (m₀.1 + t, m₀.2 + t) ∧ Diag x y m₀ t ∧
+      ∀ m' ∈ ms, m₀.2 ≤ m'.2 := ⟨m, e, hme, hde, hmono⟩
+  have hold1 : oldSide (ctext ++ tagged .del (seg x d1 sx) ++ tagged .ins (seg y d2 sy)) = seg x px sx := by
+    simp only [oldSide_append, oldSide_del, oldSide_ins, hold, List.append_nil]
+    exact seg_append hpx hsx
+  have hnew1 : newSide (ctext ++ tagged .del (seg x d1 sx) ++ tagged .ins (seg y d2 sy)) = seg y py sy := by
+    simp only [newSide_append, newSide_del, newSide_ins, hnew, List.append_nil]
+    exact seg_append hpy hsy
+  have hl1 : (seg x d1 sx).length = sx - d1 := seg_length (by omega)
+  have hl2 : (seg y d2 sy).length = sy - d2 := seg_length (by omega)
+  have hseg : ∀ a b, b ≤ w → seg x (sx + a) (sx + b) = seg y (sy + a) (sy + b) := fun a b hb => hd.seg_eq hb
+  have hcomm : seg x sx (sx + w) = seg y sy (sy + w) := by simpa using hseg 0 w (Nat.le_refl _)
+  simp only [Prod.mk.injEq] at hcount hme hchunk
+  unfold step
+  simp only [hst, hen]
+  rw [slice_eq_seg hsx (by omega), slice_eq_seg hsy (by omega)]
+  simp only
+  split
+  · -- the chunk continues
+    rename_i hc
+    rw [contCond_iff] at hc
+    rw [slice_eq_seg (by omega) hbx]
+    refine ⟨_, false, rfl, by simp, fun _ => ⟨⟨hbx, hby, hdiag', ?_⟩, ?_⟩⟩
+    · refine ⟨px, py, by simp [hchunk], by simp only; omega, by simp only; omega, hscript, ?_, ?_, ?_⟩
+      · simp only [oldSide_append _ (tagged .ctx _), hold1, oldSide_ctx]
+        exact seg_append (by omega) (by omega)
+      · simp only [newSide_append _ (tagged .ctx _), hnew1, newSide_ctx, hcomm]
+        exact seg_append (by omega) (by omega)
+      · simp only [hl1, hl2, seg_length hbx, Prod.mk.injEq]
+        omega
+    · rintro rfl
+      simp only at hme
+      omega
+  · rename_i hc
+    rw [contCond_iff] at hc
+    have hcnt : (n1 + (seg x d1 sx).length, n2 + (seg y d2 sy).length) = (sx - px, sy - py) := by
+      simp only [hl1, hl2, Prod.mk.injEq]; omega
+    rw [hcnt]
+    obtain ⟨st2, n', hcl, hct2, hcn2, hn'w, hn'1, hn'0, hscript2⟩ :=
+      closeChunk_spec (st := { done := (d1, d2), chunk := (c1, c2), count := (n1, n2), ctext := ctext, out := out })
+        (x := x) (y := y) (w := w) (by simp [hchunk]) (by omega) (by omega) hscript hold1 hnew1 hd hbx hby
+    rw [hcl]
+    simp only
+    split
+    · -- EOF: break
+      rename_i heof
+      rw [eofCond_iff] at heof
+      refine ⟨st2, true, rfl, fun _ => ?_, by simp⟩
+      have hg : seg x (sx + n') (sx + w) = seg y (sy + n') (sy + w) := hseg n' w (Nat.le_refl _)
+      have := hscript2.gap_right (seg x (sx + n') (sx + w))
+      rw [take_append_seg (by omega), hg, take_append_seg (by omega)] at this
+      rwa [List.take_of_length_le (by omega), List.take_of_length_le (by omega)] at this
+    · -- a new chunk
+      rename_i heof
+      rw [eofCond_iff] at heof
+      have hn3 : n' + 3 ≤ w := by
+        by_cases h0 : 0 < (ctext ++ tagged Tag.del (seg x d1 sx) ++ tagged Tag.ins (seg y d2 sy)).length
+        · have := hn'1 h0; omega
+        · have := hn'0 (by omega); omega
+      obtain ⟨st3, hop, hinv3⟩ := openChunk_spec (ms := ms) hct2 hcn2 hscript2 hd hbx hby hn3 hdiag'
+      rw [hop]
+      refine ⟨st3, false, rfl, by simp, fun _ => ⟨hinv3, ?_⟩⟩
+      rintro rfl
+      simp only at hme
+      omega
+
+/-- The loop: from a state satisfying the invariant, over a sequence satisfying `MsOK`, it ends
+by `break` at the latest at the end sentinel, without panic, with a complete script. -/
+theorem loop_ok {x y : List α} : ∀ (ms : List (Nat × Nat)) (st : St α), MsOK x y ms → Inv x y ms st →
+    ∃ hs, loop x y ms st = some hs ∧ Script 0 0 x y hs := by
+  intro ms
+  induction ms with
+  | nil => intro st hms _; exact absurd hms.last (by simp)
+  | cons m ms ih =>
+    intro st hms inv
+    unfold loop
+    by_cases hsk : m.1 < st.done.1
+    · rw [if_pos ((skipCond_iff _ _ _ _).2 hsk)]
+      have hne : m ≠ (x.length, y.length) := by
+        rintro rfl
+        have := inv.dx
+        simp only at hsk
+        omega
+      have hms' : MsOK x y ms := ⟨fun m' h => hms.elems m' (List.mem_cons_of_mem _ h), (List.pairwise_cons.mp hms.mono).2,
+        by have := hms.last; simp only [List.mem_cons] at this; rcases this with h | h
+           · exact absurd h.symm hne
+           · exact h⟩
+      have inv' : Inv x y ms st := ⟨inv.dx, inv.dy,
+        by obtain ⟨m₀, t, h1, h2, h3⟩ := inv.diag; exact ⟨m₀, t, h1, h2, fun m' h => h3 m' (List.mem_cons_of_mem _ h)⟩,
+        inv.chunk⟩
+      exact ih st hms' inv'
+    · rw [if_neg (by rw [skipCond_iff]; exact hsk)]
+      obtain ⟨st', b, hstep, hb1, hb2⟩ := step_ok hms inv (by omega)
+      rw [hstep]
+      cases b with
+      | true => exact ⟨_, rfl, hb1 rfl⟩
+      | false =>
+        obtain ⟨inv', hne⟩ := hb2 rfl
+        have hms' : MsOK x y ms := ⟨fun m' h => hms.elems m' (List.mem_cons_of_mem _ h), (List.pairwise_cons.mp hms.mono).2,
+          by have := hms.last; simp only [List.mem_cons] at this; rcases this with h | h
+             · exact absurd h.symm hne
+             · exact h⟩
+        exact ih st' hms' inv'
 
 end GIV.Diff
